@@ -10,10 +10,10 @@ from gen import resolver as G
 
 ID = "C08"
 PROPS = ["IsoVerif/Props/C08.lean", "IsoVerif/Props/C08Order.lean", "IsoVerif/Props/C08Flow.lean",
-         "IsoVerif/Props/C08Tables.lean", "IsoVerif/Props/C08Pickle.lean"]
+         "IsoVerif/Props/C08Tables.lean", "IsoVerif/Props/C08Pickle.lean", "IsoVerif/Props/C05Printers.lean"]
 TARGETS = ["IsoVerif.Props.C08", "IsoVerif.Props.C08Order", "IsoVerif.Props.C08Flow", "IsoVerif.Props.C08Tables",
-           "IsoVerif.Props.C08Pickle"]
-GEN_DEPS = ["Enums", "EventClasses", "Strategies", "Prims", "Resolver"]
+           "IsoVerif.Props.C08Pickle", "IsoVerif.Props.C05Printers"]
+GEN_DEPS = ["Enums", "EventClasses", "Strategies", "Prims", "Resolver", "PrinterTables"]
 LEVEL = "proof"
 RULE = ("per-read record lists on real BasicReadAssignment objects: every (type, flag, locus, isoforms, penalty) pair "
         "exhaustively, every (type, flag) assignment of length 3 over fixed locus/isoform layouts, every permutation of "
